@@ -16,8 +16,8 @@ PID = "C10"
 THEOREM_MODULES = ["GuppyVerif.Props.C10"]
 DRIVER = "C10"
 RULE = (
-    "(a) a pool of fixed witnesses plus generated programs (the C08 generator: undefined / re-typed variables, loops, nested "
-    "functions) is checked, lowered and serialised (Hugr.to_str) or its diagnostic rendered, in fresh processes under different "
+    "(a) a pool of fixed witnesses, generated programs (the C08 generator: undefined / re-typed variables, loops, nested "
+    "functions) and /repo's own tests/error modules (a sample in quick, all in thorough and whenever a proof or tie broke) is checked, lowered and serialised (Hugr.to_str) or its diagnostic rendered, in fresh processes under different "
     "PYTHONHASHSEED values and heap perturbations; all outputs per program must be identical. (b) update_reachable, "
     "check_rows_match and sort_vars are run on random inputs in several arrangements and compared with the Lean models. "
     "Non-trivial = the program is rejected with >=1 candidate variable or accepted with a branch; distinct by source text"
@@ -173,13 +173,21 @@ def f(x: int) -> float:
 ]
 
 
-def _programs(ctx):
+def _programs(ctx, everything=False):
     progs = [dict(w) for w in WITNESSES]
     import c08
 
     for i in range(ctx.n(24, 300)):
         body = c08.gen_program(ctx.rng)
         progs.append({"name": f"gen{i}", "target": "f", "src": c08.source(c08._tuplify(body)), "prelude": c08.PRELUDE_EXTRA})
+    # /repo's own error tests (every diagnostic path the maintainers thought of), as whole modules
+    import c02_harvest
+
+    errs = c02_harvest.error_programs()
+    if not everything:
+        errs = ctx.rng.sample(errs, min(len(errs), ctx.n(60, 10**6)))
+    for name, src in errs:
+        progs.append({"name": "tests/error/" + name, "target": "", "src": src, "module": True})
     return progs
 
 
@@ -217,7 +225,7 @@ def _multiprocess(ctx, progs, nseeds):
                 {"program": prog, "seed_a": seeds[0], "out_a": results[0][i], "seed_b": seeds[j], "out_b": results[j][i]},
             )
         for r in results:
-            if r[i]["kind"] in ("load-exc",):
+            if r[i]["kind"] in ("load-exc",) and not prog.get("module"):
                 raise vlib.Infra(f"c10 worker could not load program {prog['name']}: {r[i]['text']}")
     ctx.extra["processes"] = len(seeds)
 
@@ -407,7 +415,7 @@ def tie(ctx):
 
 def search(ctx, why):
     # a proof or tie broke: run the determinism differential with more seeds
-    progs = _programs(ctx)
+    progs = _programs(ctx, everything=True)
     _multiprocess(ctx, progs, 16)
 
 
